@@ -34,17 +34,38 @@ def check(ctx):
     sc = Scope.of(f)
     ups = g.find(lambda n: method_call(n, 'upload_buffer'))
     wfs = g.find(lambda n: method_call(n, 'write_flash'))
-    ctx.need(len(ups) >= 1 and len(wfs) == 2, '_internal_flash: expected buffer uploads and two flash writes (uploads=%d writes=%d)' % (len(ups), len(wfs)))
+    ctx.need(len(ups) >= 1 and len(wfs) >= 1, '_internal_flash: expected buffer uploads and flash writes (uploads=%d writes=%d)' % (len(ups), len(wfs)))
 
     # ---- R1 ---------------------------------------------------------------------------
     sp = sorted([n for n in g.nodes if n.kind == 'stmt' and isinstance(n.ast, ast.Assign) and norm(n.ast.targets[0]) == 'start_page'], key=lambda n: n.line)
     ok = len(sp) == 2 and norm(sp[0].ast.value).endswith('.start_page') and norm(sp[1].ast.value) == 'page_override' and fact_key('page_override is not None', True) in g.fact_keys_at(sp[1])
     ctx.inst('R1', f, 'override-aware-start-page', ok, 'start_page = target start page, replaced by page_override when given')
-    refusal = [n for n in g.nodes if n.kind == 'if' and isinstance(n.ast.test, ast.Compare) and norm(n.ast.test.left) == 'len(image)' and isinstance(n.ast.test.ops[0], ast.Gt)]
+    refusal = [n for n in g.nodes if n.kind == 'if' and isinstance(n.ast.test, ast.Compare) and len(n.ast.test.ops) == 1 and 'flash_pages' in norm(n.ast.test)]
     ctx.need(len(refusal) == 1, '_internal_flash: size test not found')
-    rhs = canon(refusal[0].ast.test.comparators[0], sc)
-    want = canon(ast.parse('(t_data.flash_pages - start_page) * t_data.page_size', mode='eval').body, sc)
-    ctx.inst('R1', f, 'size-test-form', rhs == want, 'space test compares len(image) with %s, expected %s (override-aware start page)' % (rhs, want))
+    # the test, with locals read through, as  lhs - rhs  OP 0 ; two exact spellings of "the image does not fit":
+    #   bytes:  len(image) > (flash_pages - start_page) * page_size
+    #   pages:  start_page + int((len(image) - 1) / page_size) >= flash_pages      (index of the last page is beyond the flash)
+    from ..symexec import subst as _subst
+    tst = refusal[0].ast.test
+
+    def through(e, at=None):
+        """e with helper locals (single reaching plain assignment at node `at`) replaced by their values; the loop and state variables stay"""
+        env = {}
+        for nm in {x.id for x in ast.walk(e) if isinstance(x, ast.Name)}:
+            if nm in ('image', 'start_page', 't_data', 'ctr', 'i', 'self'):
+                continue
+            ds = g.reaching_defs(at if at is not None else refusal[0], nm)
+            if len(ds) == 1 and isinstance(ds[0].ast, ast.Assign) and len(ds[0].ast.targets) == 1 and isinstance(ds[0].ast.targets[0], ast.Name):
+                env[nm] = ds[0].ast.value
+        return _subst(e, env) if env else e
+    diff = canon(ast.BinOp(left=through(tst.left), op=ast.Sub(), right=through(tst.comparators[0])), sc)
+    opn = type(tst.ops[0]).__name__
+    want_b = canon(ast.parse('len(image) - (t_data.flash_pages - start_page) * t_data.page_size', mode='eval').body, sc)
+    want_p = canon(ast.parse('start_page + int((len(image) - 1) / t_data.page_size) - t_data.flash_pages', mode='eval').body, sc)
+    want_p1 = canon(ast.parse('start_page + int((len(image) - 1) / t_data.page_size) - t_data.flash_pages + 1', mode='eval').body, sc)
+    okf = (opn == 'Gt' and diff == want_b) or (opn == 'GtE' and diff == want_p) or (opn == 'Gt' and diff == want_p1)
+    ctx.inst('R1', f, 'size-test-form', okf, 'space test is `%s` (as difference: %s %s 0); expected len(image) > (flash_pages - start_page) * page_size or the equivalent '
+             'page form start_page + last_page >= flash_pages (override-aware start page)' % (norm(tst), diff, opn))
     te = [e for e in refusal[0].succ if e.label and e.label[0] == 'cond' and e.label[2] is True]
     fe = [e for e in refusal[0].succ if e.label and e.label[0] == 'cond' and e.label[2] is False]
     ok = bool(te) and g.path_avoiding(refusal[0], [g.exit] + [n for n, _ in ups + wfs], avoid_edges=fe) is None
@@ -150,7 +171,7 @@ def check(ctx):
     ok = isinstance(it, ast.Call) and norm(it.func) == 'range'
     if ok:
         args = it.args if len(it.args) == 2 else [ast.Constant(value=0)] + list(it.args)
-        ok = fold_in(f, args[0]) == 0 and canon(args[1], sc) == canon(ast.parse('int((len(image) - 1) / t_data.page_size) + 1', mode='eval').body, sc)
+        ok = fold_in(f, args[0]) == 0 and canon(through(args[1], L), sc) == canon(ast.parse('int((len(image) - 1) / t_data.page_size) + 1', mode='eval').body, sc)
     ctx.inst('R5', f, 'page-count', ok, 'pages 0 .. (len(image)-1)/page_size are visited; range %s' % norm(it))
     for n, c in ups:
         s = c.args[3]
@@ -167,10 +188,10 @@ def check(ctx):
     in_loop = [(n, c) for n, c in wfs if n.id in body]
     after = [(n, c) for n, c in wfs if n.id not in body]
     ctx.need(len(in_loop) == 1 and len(after) == 1, '_internal_flash: one flash write in the loop and one after it expected')
-    tp = canon(in_loop[0][1].args[2], sc)
+    tp = canon(through(in_loop[0][1].args[2], in_loop[0][0]), sc)
     want = canon(ast.parse('start_page + %s - (ctr - 1)' % i, mode='eval').body, sc)
     ctx.inst('R5', f, 'batch-first-page', tp == want, 'a full batch is written to page %s, expected %s' % (tp, want))
-    tp = canon(after[0][1].args[2], sc)
+    tp = canon(through(after[0][1].args[2], after[0][0]), sc)
     want = canon(ast.parse('start_page + int((len(image) - 1) / t_data.page_size) - (ctr - 1)', mode='eval').body, sc)
     ctx.inst('R5', f, 'final-batch-first-page', tp == want, 'the final partial batch is written to page %s, expected %s' % (tp, want))
     for n, c in wfs:
